@@ -296,6 +296,7 @@ func vAfterFunc(d time.Duration, f func()) {
 func vGuardedBy(mu *sync.RWMutex, data *map[string]any) {}
 func vTimers() int                                       { return -1 }
 func vSections(mu *sync.RWMutex) int                     { return -1 }
+func vPick(idx int, opts ...any) any { return opts[idx] }
 func vFail(msg string) {
 	vmu.Lock()
 	vout.Fail = msg
